@@ -3,25 +3,27 @@ package basicnode
 import (
 	"errors"
 	"io"
+	"sync"
 
 	"github.com/ipld/go-ipld-prime/datamodel"
 	"github.com/ipld/go-ipld-prime/node/mixins"
 )
 
 var (
-	_ datamodel.Node          = streamBytes{nil}
+	_ datamodel.Node          = streamBytes{}
 	_ datamodel.NodePrototype = Prototype__Bytes{}
 	_ datamodel.NodeBuilder   = &plainBytes__Builder{}
 	_ datamodel.NodeAssembler = &plainBytes__Assembler{}
 )
 
 func NewBytesFromReader(rs io.ReadSeeker) datamodel.Node {
-	return streamBytes{rs}
+	return streamBytes{rs, &sync.Mutex{}}
 }
 
 // streamBytes is a boxed reader that complies with datamodel.Node.
 type streamBytes struct {
 	io.ReadSeeker
+	mu *sync.Mutex // serialises the seek+read pairs of all views of the underlying stream
 }
 
 // -- Node interface methods -->
@@ -71,7 +73,7 @@ func (streamBytes) AsString() (string, error) {
 func (n streamBytes) AsBytes() ([]byte, error) {
 	// read the whole content through a cursor of our own, so that the result
 	// does not depend on earlier reads of this node
-	return io.ReadAll(&streamBytesView{rs: n.ReadSeeker})
+	return io.ReadAll(&streamBytesView{rs: n.ReadSeeker, mu: n.mu})
 }
 func (streamBytes) AsLink() (datamodel.Link, error) {
 	return mixins.Bytes{TypeName: "bytes"}.AsLink()
@@ -80,7 +82,7 @@ func (streamBytes) Prototype() datamodel.NodePrototype {
 	return Prototype__Bytes{}
 }
 func (n streamBytes) AsLargeBytes() (io.ReadSeeker, error) {
-	return &streamBytesView{rs: n.ReadSeeker}, nil
+	return &streamBytesView{rs: n.ReadSeeker, mu: n.mu}, nil
 }
 
 // streamBytesView is a read position of its own over the node's underlying
@@ -89,10 +91,13 @@ func (n streamBytes) AsLargeBytes() (io.ReadSeeker, error) {
 // disturb each other, as the LargeBytesNode contract requires.
 type streamBytesView struct {
 	rs  io.ReadSeeker
+	mu  *sync.Mutex
 	off int64
 }
 
 func (v *streamBytesView) Read(p []byte) (int, error) {
+	v.mu.Lock()
+	defer v.mu.Unlock()
 	if _, err := v.rs.Seek(v.off, io.SeekStart); err != nil {
 		return 0, err
 	}
@@ -107,6 +112,8 @@ func (v *streamBytesView) Seek(offset int64, whence int) (int64, error) {
 	case io.SeekCurrent:
 		offset += v.off
 	case io.SeekEnd:
+		v.mu.Lock()
+		defer v.mu.Unlock()
 		end, err := v.rs.Seek(offset, io.SeekEnd)
 		if err != nil {
 			return 0, err
